@@ -6,6 +6,9 @@
 From Eino Require Import Base.Util Model.Concat Model.ConcatMsg.
 From Eino Require Import Proofs.Concat Proofs.ConcatRechunk Proofs.ConcatMsg.
 
+Section User.
+Context {U : UserFn} {L : UserLaw}.
+
 (* ------------------------------------------------------------------ pick *)
 
 Lemma str_empty_false s : str_empty s = false -> s <> EmptyString.
@@ -222,3 +225,5 @@ Proof.
   rewrite concat_maps_top_unfold in Ex. unfold concat_maps_step in Ex.
   apply mapM_pairs_inv in Ex. exact Ex.
 Qed.
+
+End User.
